@@ -3,7 +3,7 @@ from props.m1common import *  # noqa: F401,F403
 from props.m1common import g, sp, sx, rng_for, is_err
 
 PID = "C01"
-KERNELS = ['K_index_at', 'K_abstf', 'K_abst', 'K_ranges', 'K_seq_duration', 'K_sim_duration']   # translated from /repo on every run, tied to the model by coq/Gen/<name>_eq.v
+KERNELS = ['K_index_at', 'K_abstf', 'K_abst', 'K_ranges', 'K_seq_duration', 'K_sim_duration', 'K_get_event_at']   # translated from /repo on every run, tied to the model by coq/Gen/<name>_eq.v
 RUNNER = "impl_m1.py"
 N = {"quick": 1500, "thorough": 60000}
 LEVEL_RULE = ("random event trees (depth <= 4, zero-length leaves 0-30 %, empty containers, Direct and Ratio "
